@@ -35,6 +35,7 @@ var (
 		"--no-ext-diff",
 		"--no-textconv",
 		"--color=never",
+		"--text",            // pointers are text even when the path is marked binary or -diff
 		"-G", "oid sha256:", // only diffs which include an lfs file SHA change
 		"-p",                             // include diff so we can read the SHA
 		"-U12",                           // Make sure diff context is always big enough to support 10 extension lines to get whole pointer
